@@ -20,7 +20,7 @@ pub const META: PropMeta = PropMeta {
     level: "exploration",
     rule: "cases = (registry after ensure_unique_type_paths, 1..4 substitution rules over generated and prelude paths present in it): rule forms = no generics (pass-through) / same generics / permuted / repeated / nested (::a::B<::c::D<T>, T>, and beneath tuples, arrays and references inside a path argument) / fixed extra arguments / fewer / more target parameters / source generics with a generic-free target and vice versa; use sites at every depth (fields, variants, Vec/array/tuple/Option elements, arguments of other generics, compact inner, Box); rule parameters are named A,B,C / T,U,V or, in 3 of 5 rule sets, like the generator's own parameters (_0,_1,_2 in and out of order), so that a resolved argument can equal the name of another source parameter (simultaneous, not sequential, replacement). Oracle (differential + spec): generate WITHOUT the rules, apply the specification rewrite (syn-level: every occurrence of a source path, at any depth, becomes the target with each source parameter name replaced at any depth by the corresponding rewritten argument; pass-through keeps the arguments in order; all other tokens unchanged) to every field type and to resolve_type_path(id) of every id, and compare with the generation WITH the rules, item by item and field by field (PhantomData markers excluded: a rule that drops an argument legitimately changes which parameters are unused); items of substituted paths must be absent; no path root::<source> may survive anywhere. Sources with skipped parameters are excluded from rules with declared generics and counted. non-trivial = at least one occurrence rewritten with a rule that declares generics; distinct by hash of registry+rules.",
     assumptions: &["'corresponding argument' = i-th declared source parameter <-> i-th resolved argument, for sources without skipped parameters"],
-    required_counters: &["occurrences_rewritten", "registered_via[extend]", "rule_sets_with_generated_style_param_names", "rules[pass-through]", "rules[permuted]", "rules[nested]", "rules[repeated]", "rules[fewer]", "rules[more]", "rules[nested-non-type-args]", "hook[rtp:substituted]", "type_paths_compared", "fields_compared"],
+    required_counters: &["occurrences_rewritten", "registered_via[extend]", "rule_sets_with_generated_style_param_names", "rules[pass-through]", "rules[permuted]", "rules[nested]", "rules[repeated]", "rules[fewer]", "rules[more]", "rules[nested-non-type-args]", "rules[declares-fewer-than-recorded]", "rules[declares-more-than-recorded]", "hook[rtp:substituted]", "type_paths_compared", "fields_compared"],
     floor: (300, 5000),
     shards: (16, 16),
 };
@@ -226,7 +226,7 @@ pub fn gen_rules<R: Rng>(rng: &mut R, r: &PortableRegistry, ctx: &mut Ctx) -> Ve
         let sp: Vec<&str> = names[..arity.min(3)].to_vec();
         let src_generic = if sp.is_empty() { path.clone() } else { format!("{path}<{}>", sp.join(", ")) };
         let y = format!("::ext{i}::Y{i}");
-        let (from, to, form) = match (rng.gen_range(0..10), arity) {
+        let (from, to, form) = match (rng.gen_range(0..13), arity) {
             (0 | 1, _) => (path.clone(), y.clone(), "pass-through"),
             (2, a) if a >= 1 => (src_generic.clone(), format!("{y}<{}>", sp.join(", ")), "same"),
             (3, a) if a >= 2 => {
@@ -256,6 +256,16 @@ pub fn gen_rules<R: Rng>(rng: &mut R, r: &PortableRegistry, ctx: &mut Ctx) -> Ve
                     // lifetime and const arguments before / between the type arguments of a nested path
                     (src_generic.clone(), format!("{y}<::z::R<'static, {}>, ::z::N<4, {}>, ::z::M<{}, 7, ::z::O<{}>>>", sp[0], sp[sp.len() - 1], sp[0], sp[sp.len() - 1]), "nested-non-type-args")
                 }
+            }
+            (10, a) if a >= 2 => {
+                // the rule spells out only the first parameter of a type that records more
+                (format!("{path}<{}>", sp[0]), format!("{y}<{}>", sp[0]), "declares-fewer-than-recorded")
+            }
+            (11, a) if a >= 1 && a < 3 => {
+                // ... or one more than the type records (the extra name has no argument and stays as it is)
+                let mut all: Vec<&str> = sp.clone();
+                all.push("Zz");
+                (format!("{path}<{}>", all.join(", ")), format!("{y}<{}>", all.join(", ")), "declares-more-than-recorded")
             }
             (_, a) if a >= 1 => (src_generic.clone(), y.clone(), "generics-to-none"),
             _ => (path.clone(), format!("{y}<u8>"), "none-to-generics"),
